@@ -459,7 +459,20 @@ func genC10(r *Rnd, t Tier) *Case {
 	var ops []Op
 	for i, ne := 0, r.Range(1, 3); i < ne; i++ {
 		sc.Scripts = append(sc.Scripts, genScript(r, unit, r.Range(1, 4), pick(r, 0.3, 0.7, 1.0)))
-		ops = append(ops, Op{Kind: "exec", Script: i, Entry: r.Intn(8), Ctx: pick(r, CtxNone, CtxBackground)})
+		op := Op{Kind: "exec", Script: i, Entry: r.Intn(8), Ctx: pick(r, CtxNone, CtxBackground)}
+		if r.P(0.2) {
+			// the caller cancels while the function runs; the function may still return its outcome, which the
+			// fallback handles or passes through like any other
+			s := &sc.Scripts[i]
+			for j := range s.Outcomes {
+				s.Outcomes[j].Dur = time.Duration(r.Range(1, 12)) * unit
+				s.Outcomes[j].Coop = pick(r, CoopResult, CoopResult, CoopIgnore, CoopReturn)
+			}
+			op.Ctx = CtxCancel
+			op.CancelSrc = SrcCtxCancel
+			op.CancelAt = time.Duration(r.Range(0, 15)) * unit
+		}
+		ops = append(ops, op)
 	}
 	sc.Clients = []Client{{Ops: ops}}
 	if blocker {
